@@ -29,7 +29,7 @@ def make_accel_case(spec, rnd):
 
 
 VARIANTS = ["generic", "generic", "merger-static", "eager2", "part", "reread-m", "lf-shared",
-            "generic", "merger-dynamic", "generic", "part", "lf-affine"]
+            "generic", "merger-dynamic", "alias-arch", "part", "lf-affine"]
 
 
 def gen_item(pid, seed, shard, i, **kw):
